@@ -115,6 +115,7 @@ Example C03_premises_satisfiable :
   sha1_20 (fun _ => repeat 0 20%nat) /\ ige_keeps_length (fun _ _ d => d) /\
   ige_inverts (fun _ _ d => d) (fun _ _ d => d).
 Proof. repeat split. Qed.
+Print Assumptions C03_premises_satisfiable.
 
 (* ... the textbook IGE over any block cipher with 16-byte outputs whose decryption inverts its
    encryption under 32-byte keys satisfies the two IGE premises ... *)
@@ -127,6 +128,7 @@ Proof.
   - intros k iv d. apply (ige_encrypt_length E D); assumption.
   - intros k iv d. apply (ige_decrypt_encrypt E D); assumption.
 Qed.
+Print Assumptions C03_ige_premises_from_block_cipher.
 
 (* ... and with the real primitives (Gallina SHA-1 and AES-256) the model reproduces the packet
    pinned in the repository's own test (messages_test.go TestSerializeEncryptedMessage), which the
@@ -149,16 +151,19 @@ Definition test_packet : bytes := hex
 Example C03_repo_test_vector :
   seal_client sha1 x_ige_e test_key 0 0 123 0 false test_body = Ok test_packet.
 Proof. vm_compute. reflexivity. Qed.
+Print Assumptions C03_repo_test_vector.
 
 Example C03_server_opens_repo_test_vector :
   open_server sha1 x_ige_d test_key test_packet = Some (0, 0, 123, 0, test_body).
 Proof. vm_compute. reflexivity. Qed.
+Print Assumptions C03_server_opens_repo_test_vector.
 
 Example C03_client_opens_a_server_packet :
   omap fields_of (open_client sha1 x_ige_d test_key
                     (seal_server sha1 x_ige_e test_key 7 9 125 3 test_body (hex "a1b2c3d4e5f60718aa")))
   = Ok (7, 9, 125, 3, test_body).
 Proof. vm_compute. reflexivity. Qed.
+Print Assumptions C03_client_opens_a_server_packet.
 
 (* a msg_id that is negative as int64 (bit 63 set), server parity: opened all the same *)
 Example C03_client_opens_negative_msg_id :
@@ -166,3 +171,4 @@ Example C03_client_opens_negative_msg_id :
                     (seal_server sha1 x_ige_e test_key 7 9 (2 ^ 64 - 3) 3 test_body (hex "a1b2c3d4e5f60718aa")))
   = Ok (7, 9, 2 ^ 64 - 3, 3, test_body) /\ server_parity (2 ^ 64 - 3) = true /\ to_i64 (2 ^ 64 - 3) = (-3)%Z.
 Proof. vm_compute. repeat split; reflexivity. Qed.
+Print Assumptions C03_client_opens_negative_msg_id.
